@@ -57,6 +57,7 @@ func c14Package(rng *rand.Rand, idx int) (rcase, []c14op) {
 	}
 	var ops []c14op
 	var junk []string
+	nbody := 0
 	// component responses shared between operations, under different status codes, one of them through an alias
 	type sharedResp struct {
 		name string
@@ -86,7 +87,12 @@ func c14Package(rng *rand.Rand, idx int) (rcase, []c14op) {
 				pi.Params = append(pi.Params, dialect.Param{Name: seg[1 : len(seg)-1], In: "path", Required: true, Schema: paramSchemas[rng.Intn(len(paramSchemas))]()})
 			}
 		}
-		for _, m := range [][]string{{"GET"}, {"POST"}, {"GET", "POST"}, {"PUT", "DELETE"}, {"GET", "PATCH", "OPTIONS"}}[rng.Intn(5)] {
+		mset := [][]string{{"GET"}, {"POST"}, {"GET", "POST"}, {"PUT", "DELETE"}, {"GET", "PATCH", "OPTIONS"}}[rng.Intn(5)]
+		if len(sp.Paths) < 3 {
+			// the first three path items have an operation with a body, whatever the seed (see nbody below)
+			mset = [][]string{{"POST"}, {"PUT", "DELETE"}, {"GET", "PATCH", "OPTIONS"}}[len(sp.Paths)]
+		}
+		for _, m := range mset {
 			o := &dialect.Op{Method: m}
 			for k := 0; k < rng.Intn(5); k++ {
 				in := []string{"query", "query", "header"}[rng.Intn(3)]
@@ -124,7 +130,15 @@ func c14Package(rng *rand.Rand, idx int) (rcase, []c14op) {
 			var body *JS
 			var extra []string
 			if m != "GET" && m != "DELETE" && m != "OPTIONS" {
-				switch rng.Intn(5) {
+				// the first three bodies of a document, whatever the seed: an object composed with allOf whose first member is a
+				// $ref (through an alias component in every other document), an array of objects with optional properties, a oneOf
+				pick := rng.Intn(5)
+				if nbody < 3 {
+					pick = []int{0, 2, 4}[nbody]
+				}
+				g.forceEmbed = nbody == 0
+				nbody++
+				switch pick {
 				case 4:
 					// a oneOf body: two object components told apart by a required key (and by a discriminator in C14's own
 					// documents); VarA has a property that is a component without a type (any)
@@ -164,6 +178,13 @@ func c14Package(rng *rand.Rand, idx int) (rcase, []c14op) {
 					}
 				case 2:
 					body = &JS{Kind: "arr", Inner: g.value(1)}
+					if nbody == 2 {
+						body.Inner = g.object(1, false)
+						for len(body.Inner.Members) < 2 {
+							body.Inner = g.object(1, false)
+						}
+						body.Inner.Members[0].Req = false
+					}
 					if body.Inner.Kind == "obj" && body.Inner.Ref == "" {
 						body.Inner.Ref = g.name()
 					}
